@@ -5,6 +5,7 @@ package main
 // (shared: the sibling cross-check between keccak256 and VerifyAgainstTX.)
 
 import (
+	"go/token"
 	"go/types"
 	"sort"
 	"strings"
@@ -181,14 +182,14 @@ var needsTurnstone = map[string]bool{"SubmitLogicCall": true, "UpdateValset": tr
 var checkpointRequired = []string{"TokenContract", "Transactions[].DestAddress", "Transactions[].Erc20Token.Amount", "BatchNonce", "BatchTimeout", "AssigneeRemoteAddress", "GasEstimate", "turnstoneID"}
 
 var checkpointExempt = map[string]string{
-	"PalomaBlockCreated":                  "Paloma-side bookkeeping, never sent to the remote contract",
-	"ChainReferenceID":                    "selects the store / chain; the deployment is bound through turnstoneID",
-	"BytesToSign":                         "the checkpoint itself",
-	"Assignee":                            "Paloma validator address; the remote side sees AssigneeRemoteAddress",
-	"Transactions[].Id":                   "Paloma-side transfer id, not sent",
-	"Transactions[].Sender":               "Paloma-side sender, not sent",
-	"Transactions[].BridgeTaxAmount":      "tax stays on Paloma, not sent",
-	"Transactions[].Erc20Token.Contract":  "equals the batch token contract for every transfer of a batch",
+	"PalomaBlockCreated":                         "Paloma-side bookkeeping, never sent to the remote contract",
+	"ChainReferenceID":                           "selects the store / chain; the deployment is bound through turnstoneID",
+	"BytesToSign":                                "the checkpoint itself",
+	"Assignee":                                   "Paloma validator address; the remote side sees AssigneeRemoteAddress",
+	"Transactions[].Id":                          "Paloma-side transfer id, not sent",
+	"Transactions[].Sender":                      "Paloma-side sender, not sent",
+	"Transactions[].BridgeTaxAmount":             "tax stays on Paloma, not sent",
+	"Transactions[].Erc20Token.Contract":         "equals the batch token contract for every transfer of a batch",
 	"Transactions[].Erc20Token.ChainReferenceID": "equals the batch chain",
 }
 
@@ -466,21 +467,42 @@ func rulesC05(w *World, o *Out) {
 	inc := w.MustFunc(o, "util/keeper", "IDGenerator", "IncrementNextID")
 	if inc != nil {
 		o.Analysed(w.FuncKey(inc))
+		// lastPlusOne: v is exactly GetLastID(...) + 1
+		lastPlusOne := func(v ssa.Value) bool {
+			bo, isAdd := canon(v).(*ssa.BinOp)
+			if !isAdd || bo.Op != token.ADD {
+				return false
+			}
+			for _, pr := range [][2]ssa.Value{{bo.X, bo.Y}, {bo.Y, bo.X}} {
+				c, isC := canon(pr[1]).(*ssa.Const)
+				if !isC || c.Value == nil || c.Value.ExactString() != "1" {
+					continue
+				}
+				if call, isCall := canon(pr[0]).(*ssa.Call); isCall {
+					if cal, ok := CalleeOf(call.Common()); ok && cal.Name == "GetLastID" && strings.HasSuffix(cal.Pkg, "util/keeper") {
+						return true
+					}
+				}
+			}
+			return false
+		}
 		muts := w.mutsIn(fl, inc)
-		ok := false
+		ok := len(muts) > 0
 		for _, m := range muts {
 			args := m.Site.Args()
-			v := args[len(args)-1]
-			if fl.DependsOnCall(v, isCallee("util/keeper", "IDGenerator", "GetLastID")) != nil {
-				ok = true
+			v := canon(args[len(args)-1])
+			// the value is serialised by a one-argument encoder (Uint64ToByte); look through it
+			if call, isCall := v.(*ssa.Call); isCall && len(call.Call.Args) == 1 {
+				v = canon(call.Call.Args[0])
+			}
+			if !lastPlusOne(v) {
+				ok = false
 			}
 		}
-		o.Check("C05.R3", "IncrementNextID|persists last+1", ok, w.Pos(inc.Pos()), "the stored value must derive from GetLastID (+1)")
+		o.Check("C05.R3", "IncrementNextID|persists last+1", ok, w.Pos(inc.Pos()), "the stored value must be exactly GetLastID()+1 (the id handed out), so that the next id differs from every id handed out before")
 		for _, r := range Returns(inc) {
 			if len(r.Ret.Results) == 1 {
-				bo, isAdd := canon(r.Ret.Results[0]).(*ssa.BinOp)
-				okR := isAdd && bo.Op.String() == "+" && fl.DependsOnCall(bo, isCallee("util/keeper", "IDGenerator", "GetLastID")) != nil
-				o.Check("C05.R3", "IncrementNextID|returns last+1", okR, w.Pos(r.Ret.Pos()), "must return GetLastID()+1")
+				o.Check("C05.R3", "IncrementNextID|returns last+1", lastPlusOne(r.Ret.Results[0]), w.Pos(r.Ret.Pos()), "must return GetLastID()+1")
 			}
 		}
 	}
@@ -804,6 +826,26 @@ func rulesC07(w *World, o *Out) {
 					}
 				}
 				ok := len(tests) >= 3 && ReachAvoiding(g, nil, map[ssa.Instruction]bool{s.Instr: true}, tests) == nil
+				// every edge into the flush holds one of the three admitted conditions (a further disjunct,
+				// e.g. `|| retErr != nil`, would flush the effects of a failed attestation)
+				admitted := func(fa Fact) bool {
+					switch fa.Kind {
+					case FNil:
+						return isErrorType(fa.V.Type())
+					case FTrue:
+						if c, isCall := canon(fa.V).(*ssa.Call); isCall {
+							if cal, okc := CalleeOf(c.Common()); okc && cal.Pkg == "errors" && cal.Name == "Is" {
+								for _, t := range tagsOf(fl, c.Call.Args[1]) {
+									if t == "global:ErrEthTxNotVerified" || t == "global:ErrEthTxFailed" {
+										return true
+									}
+								}
+							}
+						}
+					}
+					return false
+				}
+				ok = ok && factOnEveryEdge(s.Instr, admitted)
 				errs := map[string]bool{}
 				for _, s2 := range CallsIn(g) {
 					if s2.Callee.Pkg == "errors" && s2.Callee.Name == "Is" {
